@@ -249,6 +249,10 @@ def gen_history(seed, tier, classes=None, weights=None, n_ops=(6, 16),
       s.params = dict(getattr(s, "params", {}) or {}, **p)
       s.data = dk
     via = "indices" if (s.pre and r.random() < 0.6) else "formed"
+    if s.name == "LFDA" and W.get("eigsh") and r.random() < 0.5:
+      # LFDA is the one learner whose result comes out of an iterative solver
+      # with a fallback chain: decide the solver's fate right before its fit
+      ops.append(dict(op="eigsh", mode=r.choice(["seeded", "fail", "fail", "fail2"]), seed=r.randrange(10**6)))
     op = dict(op="fit", h=s.hid, data=dk, via=via)
     if not hasattr(s, "buffered"):
       s.buffered = bool(buffer_p) and r.random() < buffer_p     # a caller habit: sticky per estimator
